@@ -27,12 +27,15 @@ RULE = ("values generated recursively (depth <= 6) from the property's domain: N
         "failed after the dumps phase; distinct = distinct (serializer, path, canonical input). Histories: sequences of equal-but-"
         "differently-written values (Decimal exponent / trailing-zero / negative-zero forms, 0 / 0.0 / -0.0 / False, 1 / 1.0 / True, one "
         "uuid from several constructors, str / bytes / tuple and their subclasses), plain and inside containers, converted in one process "
-        "and compared item by item with a pristine forked process; a history prefix is non-trivial once converted; distinct = distinct prefix")
+        "and compared item by item with a pristine forked process; a history prefix is non-trivial once converted; distinct = distinct prefix. "
+        "End-to-end histories: every set of rigs first serves an all-@oneway same-named twin class; result streams are also consumed after "
+        "their proxy went out of scope; serpent is also run with SERPENT_BYTES_REPR=True")
 ASSUMPTIONS = ["the type mapping of serpent / marshal / json / msgpack / struct / base64 / datetime.isoformat written down in "
                "PyroModel/Values.lean (enc/dec with hooks=false = libMap) is what the installed libraries do (validated by suite 'lib')",
                "int(str(n)) == n in CPython (proved for the model's decimal codec)",
                "zlib.decompress(zlib.compress(p)) == p (C06)",
-               "no custom class<->dict converters are registered (SerializerBase registries empty), SERPENT_BYTES_REPR=False"]
+               "no custom class<->dict converters are registered (SerializerBase registries empty); the Lean model is for SERPENT_BYTES_REPR=False "
+               "(the setting True is covered by the real-code oracle only: symmetry, idempotence, element-wise containers, end-to-end positions)"]
 TRUSTED = ["props/c01_vals.py: Python value <-> token encoding and the canonicaliser (sets and dict items sorted, NaN -> one token)",
            "props/c01_e2e.py: in-memory duplex socket standing for a connected socket pair",
            "props/c01_hist.py: the pristine helper process (imports Pyro5, forks one child per reference conversion)",
